@@ -2,7 +2,7 @@
 Expected results are never computed here."""
 import random
 from xml.sax.saxutils import escape, quoteattr
-import xpgen
+import xpgen, xdm
 from xpgen import *
 from xdm import cps
 
@@ -613,6 +613,84 @@ def attrsets_stylesheet(rng):
 
 
 # ------------------------------------------------------------------------------------------ rendering
+def exec_doc(depth=5):
+    """the source document of the executor family: every element has the children (element, comment, element) and an id attribute that
+    spells its path, so that the i-th selected node of an instruction executed at node p is recognisable in the output"""
+    def el(path, d):
+        kids = [] if d == 0 else [el(path + "1", d - 1), xdm.C("c" + path), el(path + "3", d - 1)]
+        return xdm.E("e", *kids, a=[xdm.A("id", "n" + path)])
+    return xdm.R(el("", depth))
+
+
+def exec_stylesheet(prog):
+    """an abstract program of spec/impl/ExecImpl.tla ([n, el]: element i = el[i-1]) as a stylesheet:
+    template 1 matches '/', a template reached by call-template is named t<i>, one reached by apply-templates matches node() in mode m<i>;
+    for-each over 2 nodes selects '*', over none 'zz'; apply-templates over (rule, none, rule) selects node() = (element, comment, element),
+    over (none) comment(), over () zz; value-of prints the current node's id; a text that is the only child of xsl:comment is written bare."""
+    el = prog["el"]
+    E = lambda i: el[i - 1]
+    P_ = lambda *steps, **kw: path(list(steps), **kw)
+    called = {e["target"] for e in el if e["kind"] == "call"}
+    applied = {e["target"] for e in el if e["kind"] == "apply"}
+    NODESEL = {0: P_(ch(t_name("zz"))), 1: P_(ch(T_COMMENT)), 2: P_(ch(T_ANY)), 3: P_(ch(T_NODE))}
+
+    def body(i):
+        out = []
+        for k in E(i)["kids"]:
+            out.extend(instr(k))
+        return out
+
+    def params(i):
+        return [{"name": "w%d" % k, "hasSel": True, "sel": lit("p"), "body": []} for k in E(i)["kids"]]
+
+    def instr(i):
+        e = E(i); k = e["kind"]
+        if k == "text":
+            bare = E(e["parent"])["kind"] == "comment" and len(E(e["parent"])["kids"]) == 1
+            return [dict({"i": "text", "v": cps("t%d" % i)}, **({"bare": True} if bare else {}))]
+        if k == "valueof":
+            return [{"i": "value-of", "sel": fn("concat", lit("["), P_(at(t_name("id"))), lit("]"))}]
+        if k == "lre":
+            return [{"i": "lre", "name": cps("l%d" % i), "attrs": [], "body": body(i)}]
+        if k == "foreach":
+            return [{"i": "for-each", "sel": NODESEL[len(e["nodes"])] if len(e["nodes"]) != 1 else P_(ch(t_name("e"), num(1))), "sorts": [], "body": body(i)}]
+        if k == "apply":
+            return [{"i": "apply-templates", "hasSel": True, "sel": NODESEL[len(e["nodes"])], "mode": "m%d" % e["target"], "sorts": [], "params": params(i)}]
+        if k == "call":
+            return [{"i": "call-template", "name": "t%d" % e["target"], "params": params(i)}]
+        if k == "if":
+            return [{"i": "if", "test": fn("true" if e["b"] else "false"), "body": body(i)}]
+        if k == "choose":
+            whens = [{"test": fn("true" if E(w)["b"] else "false"), "body": body(w)} for w in e["kids"] if E(w)["kind"] == "when"]
+            oth = [w for w in e["kids"] if E(w)["kind"] == "otherwise"]
+            ob = body(oth[0]) if oth else []
+            if oth and not ob:
+                ob = [{"i": "text", "v": cps("")}]          # an xsl:otherwise without content must still be written (it ends the choice)
+            return [{"i": "choose", "whens": whens, "otherwise": ob}]
+        if k == "var":
+            return [{"i": "variable", "name": "v%d" % i, "hasSel": False, "sel": NONE, "body": body(i)}]
+        if k == "copyvar":
+            return [{"i": "text", "v": cps("{")}, {"i": "copy-of", "sel": var("v%d" % e["ref"])}, {"i": "text", "v": cps("}")}]
+        if k == "comment":
+            return [{"i": "comment", "body": body(i)}]
+        raise ValueError(k)
+
+    templates = []
+    for i, e in enumerate(el, 1):
+        if e["kind"] != "template":
+            continue
+        t = {"rid": i, "hasMatch": False, "match": NONE, "name": "", "mode": "", "hasPrio": False, "prio": {"k": "fin", "neg": False, "m": 0}, "params": [], "body": body(i)}
+        if i == 1:
+            t["hasMatch"], t["match"] = True, P_(abs_=True)
+        else:
+            if i in called:
+                t["name"] = "t%d" % i
+            if i in applied:
+                t["hasMatch"], t["match"], t["mode"] = True, P_(ch(T_ANY)), "m%d" % i
+        templates.append(t)
+    return {"templates": templates, "gvars": [], "keys": [], "strip": []}
+
+
 def s(cp):
     return "".join(chr(c) for c in cp)
 
@@ -646,6 +724,8 @@ def r_body(body):
 def r_instr(x):
     i = x["i"]
     if i == "text":
+        if x.get("bare"):
+            return escape(s(x["v"]))             # literal text of the template itself (an ElemTextLiteral child, no xsl:text around it)
         return "<xsl:text>%s</xsl:text>" % escape(s(x["v"]))
     if i == "value-of":
         return "<xsl:value-of select=%s/>" % quoteattr(xpgen.render(x["sel"]))
@@ -781,7 +861,7 @@ def spec_stylesheet(ss):
 def spec_form(x):
     """AST as XSLTSem.tla sees it: strings become code point lists where the spec compares them with document strings"""
     if isinstance(x, dict):
-        return {k: spec_form(v) for k, v in x.items() if k not in ("abbr", "prefix", "_type", "inc")}
+        return {k: spec_form(v) for k, v in x.items() if k not in ("abbr", "prefix", "_type", "inc", "bare")}
     if isinstance(x, list):
         return [spec_form(v) for v in x]
     return x
